@@ -38,12 +38,16 @@ def leafValue (w : World) (sol : Solution) (h : Nat) : Option Coef :=
 def leafVals (w : World) (sol : Solution) : List (Nat × Coef) :=
   (List.range w.exs.size).filterMap (fun h => (leafValue w sol h).map (fun x => (h, x)))
 
+/-- the scripted multiplier of the scalar constraint sent at position `k`: `1000 + k`, NEGATIVE at every third position
+(multipliers of equalities have no sign; nothing that reports a multiplier may clip, take an absolute value or re-sign it) -/
+def dualTag (k : Nat) : Coef := if k % 3 == 1 then -((1000 + k : Nat) : Coef) else ((1000 + k : Nat) : Coef)
+
 def EvalSt.afterSolve (s : EvalSt) (w : World) (sol : Solution) : EvalSt :=
   let leafVals : List (Nat × Coef) := leafVals w sol
   let exVal := leafVals ++ s.exVal.filter (fun hv => !(leafVals.map (·.1)).contains hv.1)
   let duals : List (Nat × Coef) := (List.range w.sent.length).filterMap (fun k =>
     match (w.sent[k]? : Option Sent) with
-    | some (Sent.cons h) => some (h, ((1000 + k : Nat) : Coef))
+    | some (Sent.cons h) => some (h, dualTag k)
     | _ => Option.none)
   -- `assign_dual_values` walks the sent list in order: for an object sent twice the LAST multiplier stays
   let duals := duals.reverse
@@ -166,7 +170,7 @@ def constOf (d : EDict) : Coef := (d.filter (fun kc => kc.1 == EKey.one)).foldl 
 /-- the value `check_feasibility` returns as dual objective: the constant term of
 `objective − (−⟨residual, Gram⟩ − Σ⟨Λ_k, T_k⟩ + Σ λ_c · expr_c)`, i.e.
 `−Σ λ_c · const(expr_c) + Σ_k Σ_ij Λ_k[i,j] · const(T_k[i,j])`, for scripted multipliers
-`λ_c = 1000 + position`, `Λ_k = (2000 + position) · I`. -/
+`λ_c = dualTag position` (`± (1000 + position)`), `Λ_k = (2000 + position) · I`. -/
 def scriptedDualObjective (w : World) : Coef :=
   -- the multiplier `check_feasibility` reads is the one EXPOSED by the object: for an object sent twice,
   -- that of its last row (for both occurrences)
@@ -177,7 +181,7 @@ def scriptedDualObjective (w : World) : Coef :=
     | some (Sent.cons h) =>
       match w.cons[h]? with
       | some c => match w.exs[c.e]? with
-        | some e => acc - ((1000 + lastPos (Sent.cons h) k : Nat) : Coef) * constOf (Dict.prune e.d)
+        | some e => acc - dualTag (lastPos (Sent.cons h) k) * constOf (Dict.prune e.d)
         | Option.none => acc
       | Option.none => acc
     | some (Sent.psd h) =>
